@@ -101,15 +101,39 @@ fn enumerated() -> Vec<ConnCase> {
 
 static NEXT_LANE: std::sync::atomic::AtomicU32 = std::sync::atomic::AtomicU32::new(1);
 thread_local! {
-    static LANE: u8 = (NEXT_LANE.fetch_add(1, std::sync::atomic::Ordering::Relaxed) % 250) as u8 + 1;
+    /// (second octet, third octet, lock socket) of the block of loopback addresses this worker
+    /// thread has claimed
+    static BLOCK: std::cell::RefCell<Option<(u8, u8, std::net::TcpListener)>> = const { std::cell::RefCell::new(None) };
 }
 
-/// Candidate i of this worker thread: 127.<process>.<thread>.(20+i). Every worker thread of every
-/// concurrently running process has its own block of loopback addresses, so that one run's
-/// closed port can never be another run's listener.
+/// The block 127.<a>.<b>.x of this worker thread. Every worker thread of every concurrently
+/// running process needs its own, so that one run's closed port can never be another run's
+/// listener. A block is claimed by binding a lock socket on 127.<a>.<b>.250:47123 (held for the
+/// life of the thread): two processes whose ids collide - or anything else running on this host -
+/// cannot end up in the same block.
+fn block() -> (u8, u8) {
+    BLOCK.with(|b| {
+        if let Some((a, l, _)) = &*b.borrow() {
+            return (*a, *l);
+        }
+        let lane0 = NEXT_LANE.fetch_add(1, std::sync::atomic::Ordering::Relaxed);
+        let proc0 = std::process::id() % 200;
+        for k in 0..200u32 * 250 {
+            let a = ((proc0 + k / 250) % 200) as u8 + 20;
+            let l = ((lane0 + k) % 250) as u8 + 1;
+            if let Ok(lock) = std::net::TcpListener::bind(SocketAddrV4::new(Ipv4Addr::new(127, a, l, 250), 47123)) {
+                *b.borrow_mut() = Some((a, l, lock));
+                return (a, l);
+            }
+        }
+        panic!("harness: no free block of loopback addresses");
+    })
+}
+
+/// Candidate i of this worker thread: 127.<a>.<b>.(20+i).
 fn candidate_ip(i: usize) -> Ipv4Addr {
-    let proc_octet = (std::process::id() % 200) as u8 + 20;
-    Ipv4Addr::new(127, proc_octet, LANE.with(|l| *l), 20 + i as u8)
+    let (a, l) = block();
+    Ipv4Addr::new(127, a, l, 20 + i as u8)
 }
 
 /// Bind listeners (or reserve closed ports) on candidate_ip(i):P for one common P.
